@@ -377,6 +377,20 @@ impl From<Value> for Expr {
     }
 }
 
+impl Expr {
+    /// Render a sub-expression in a position where the grammar expects something that binds
+    /// tighter than a bitwise or unary operator. Those are the only expressions that are
+    /// displayed without enclosing parentheses, so they get them here.
+    fn operand(&self) -> String {
+        match self {
+            Expr::BitAnd(..) | Expr::BitOr(..) | Expr::BitXor(..) | Expr::Not(_) | Expr::Neg(_) => {
+                format!("({self})")
+            }
+            _ => self.to_string(),
+        }
+    }
+}
+
 impl Display for Expr {
     fn fmt(&self, formatter: &mut std::fmt::Formatter<'_>) -> std::fmt::Result {
         match self {
@@ -384,7 +398,7 @@ impl Display for Expr {
             Expr::Reference(ident) => write!(formatter, "{ident}"),
             Expr::Symbol(ident) => write!(formatter, ":{ident}"),
             Expr::Function(ident, param) => write!(formatter, "{ident}({param})"),
-            Expr::Index(left, right) => write!(formatter, "({left}.{right})"),
+            Expr::Index(left, right) => write!(formatter, "({}.{right})", left.operand()),
             Expr::If(check, true_case, false_case) => {
                 write!(formatter, "(if {check} then {true_case} else {false_case})")
             }
@@ -424,10 +438,17 @@ impl Display for Expr {
             Expr::LessThanEquals(left, right) => write!(formatter, "({left} <= {right})"),
             Expr::And(left, right) => write!(formatter, "({left} and {right})"),
             Expr::Or(left, right) => write!(formatter, "({left} or {right})"),
-            Expr::BitAnd(left, right) => write!(formatter, "{left} & {right}"),
-            Expr::BitOr(left, right) => write!(formatter, "{left} | {right}"),
-            Expr::BitXor(left, right) => write!(formatter, "{left} ^ {right}"),
-            Expr::Contains(left, right) => write!(formatter, "({left} contains {right})"),
+            Expr::BitAnd(left, right) => write!(formatter, "{left} & {}", right.operand()),
+            Expr::BitOr(left, right) => write!(formatter, "{left} | {}", right.operand()),
+            Expr::BitXor(left, right) => write!(formatter, "{left} ^ {}", right.operand()),
+            Expr::Contains(left, right) => {
+                write!(
+                    formatter,
+                    "({} contains {})",
+                    left.operand(),
+                    right.operand()
+                )
+            }
             Expr::UpperCase(param) => write!(formatter, "uppercase({param})"),
             Expr::LowerCase(param) => write!(formatter, "lowercase({param})"),
             Expr::Trim(param) => write!(formatter, "trim({param})"),
